@@ -1,5 +1,5 @@
 /-!
-# C18 - small-step model of package `cache` (cache.go, cleaner.go)
+# C18 - small-step model of package `cache` (cache.go, cleaner.go) as of /repo commit b331fc5
 
 One `step` per critical section of the Go code, several caches sharing one `Cleaner`, any number of caller
 threads, one maintainer (Rotate / Cleanup / CleanEmptyGenerations / ReleaseBuckets run on one goroutine in
